@@ -157,11 +157,17 @@ func genMsg(r *rand.Rand, kind string, tag int) *dynamicpb.Message {
 	default:
 		if n, ok := strings.CutPrefix(kind, "size:"); ok {
 			// payload whose "data" field has exactly n bytes of incompressible data
-			var size int
-			fmt.Sscanf(n, "%d", &size)
+			// ("size:N:K": additionally K ASCII characters in "parent", to reach sizes base64 steps over)
+			var size, pad int
+			if _, err := fmt.Sscanf(n, "%d:%d", &size, &pad); err != nil {
+				fmt.Sscanf(n, "%d", &size)
+			}
 			b := make([]byte, size)
 			r.Read(b)
 			m.Set(fd(m, "data"), protoreflect.ValueOfBytes(b))
+			if pad > 0 {
+				setStr(m, "parent", strings.Repeat("p", pad))
+			}
 		} else if n, ok := strings.CutPrefix(kind, "zeros:"); ok {
 			var size int
 			fmt.Sscanf(n, "%d", &size)
